@@ -87,4 +87,10 @@ CHECKS = {
         'note': 'Length bound 6/7; the finite-state argument that disagreements show on short strings is stated, not machine-checked. Domain: lexemes separated by white space except next to parentheses and before comments.',
         'technique': 'exhaustive bounded comparison of the real parser with a reference reader + mechanically checked class-abstraction obligation on the AST',
     },
+    'C14': {
+        'category': 'proof',
+        'text': 'Step contracts, on a namespace whose ~70 attributes hold arbitrary symbolic prior values: ToggleAction sets exactly its destination to not-negated, TheoryToggleAction sets its group attribute and exactly the mutator attributes of its group, DisableAllTheoriesAction sets every group and mutator attribute to false; nothing else changes (frame). Registry obligations on the real registries: destinations pairwise distinct, every registered class exists, every mutator has an option registered by collect_mutator_options with default true (so the permissive getattr(..., True) default of get_mutators is never taken). get_mutators: for every registered name, an instance of exactly that class is returned iff its (symbolic) flag is set; lists are concatenations; unknown names yield nothing. auto_detect_theories per group: disables the group iff it was unset, has is_relevant, and is_relevant is false on every top-level node; other groups untouched. Pass construction: ddmin passes contain exactly the enabled mutators minus BinaryReduction, the last hierarchical pass exactly the enabled ones (default-constructed), no pass uses a disabled one - checked on the configurations all-on, all-off, each single flag off/on (shape-bounded part, flags act independently by the get_mutators contract).',
+        'note': 'Assumed: argparse applies actions left to right (then the value of an option is the one written by the last option touching it, by induction over the step contracts); cross-checked natively through the real argparse on all single options, 182 ordered pairs and random sequences.',
+        'technique': 'contract-based deductive verification: step contracts with frame conditions on symbolic namespaces, registry obligations, z3; native argparse harness as bounded stand-in',
+    },
 }
